@@ -28,6 +28,15 @@ def isinstance_bool(eng, st, v, cls):
     bm = _bm()
     if isinstance(cls, (STuple, SConstSeq)):
         return z3.Or([isinstance_bool(eng, st, v, c) for c in cls.items])
+    if isinstance(cls, SFunc) and cls.what == "typeof":
+        w = cls.payload
+        if isinstance(v, (SRef, SOptRef)) and isinstance(w, (SRef, SOptRef)):
+            kv = v.kind[4:] if isinstance(v, SRef) else v.inner[4:]
+            kw = w.kind[4:] if isinstance(w, SRef) else w.inner[4:]
+            pairs = [(a_, b_) for a_ in eng.concrete_subclasses(kv) for b_ in eng.concrete_subclasses(kw) if eng.is_subclass(a_, b_)]
+            cv, cw = eng.cls_term(st, v.t), eng.cls_term(st, w.t)
+            return z3.Or([z3.And(cv == eng.class_ids[a_], cw == eng.class_ids[b_]) for a_, b_ in pairs] + [z3.BoolVal(False)])
+        raise _err("isinstance(x, type(y)) on non-objects")
     name = cls.name
     if isinstance(v, SDyn):
         t = v.t
@@ -336,6 +345,12 @@ def any_all(eng, name, x, st, fr, k):
 
 def call_method(eng, o, name, args, kwargs, st, fr, k, node=None):
     bm = _bm()
+    if isinstance(o, SOptRef):
+        inner_ = SRef(o.t, o.inner)
+        if st.spec:
+            return call_method(eng, inner_, name, args, kwargs, st, fr, k, node)
+        return eng.branch(st, o.t != 0, lambda s_: call_method(eng, inner_, name, args, kwargs, s_, fr, k, node),
+                          lambda s_: eng.raise_new(s_, "AttributeError"), "optional")
     if isinstance(o, SStr):
         return str_method(eng, o, name, args, kwargs, st, fr, k)
     if isinstance(o, SMatch):
